@@ -53,6 +53,7 @@ fn main() {
         "transport-drive" => transport::drive(rest),
         "transport-values" => transport::values(rest),
         "total-drive" => total::drive(rest),
+        "heap-drive" => vmtrace::heap_drive(rest),
         "cards-show" => drive::show(rest),
         "table-replay" => util::run_cases(rest, tables::replay_case),
         "table-drive" => tables::drive(rest),
